@@ -36,6 +36,7 @@ fn inject(kind: u32, timed: bool) {
     INJECTED_AT.store(ORDINAL.load(Ordering::SeqCst), Ordering::SeqCst);
     INJECTED_KIND.store(kind as usize, Ordering::SeqCst);
     TIMED.store(timed, Ordering::SeqCst);
+    crate::util::child_mark("777003");
     if let Some(c) = CONTROLLER.get() {
         c.interrupt();
     }
